@@ -76,8 +76,39 @@ func c12load(g *Gen, i int, tags []string, path string, files map[string]string,
 	defer os.Chdir(cwd)
 	b := parser.New()
 	b.AddBuildTags(tags...)
+	if c12root != "" {
+		write(c12root, "root.go", "package root\n")
+		defer os.RemoveAll(filepath.Join(src, c12root))
+		if err := b.AddDirRecursive(c12root); err != nil {
+			return nil, err
+		}
+		return b.FindTypes()
+	}
 	if err := b.AddDir(path); err != nil {
 		return nil, err
 	}
 	return b.FindTypes()
+}
+
+// c06loadInto adds the requested packages of prog to the given universe (AddDirTo, from GOPATH).
+func c06loadInto(g *Gen, i int, prog []GenPkg, u *types.Universe) error {
+	src := filepath.Join(os.Getenv("GOPATH"), "src")
+	for _, gp := range prog {
+		d := filepath.Join(src, gp.Path)
+		os.MkdirAll(d, 0755)
+		os.WriteFile(filepath.Join(d, "file.go"), []byte(gp.Src), 0644)
+		defer os.RemoveAll(d)
+	}
+	cwd, _ := os.Getwd()
+	os.Chdir(src)
+	defer os.Chdir(cwd)
+	b := parser.New()
+	for _, gp := range prog {
+		if gp.Requested {
+			if err := b.AddDirTo(gp.Path, u); err != nil {
+				return err
+			}
+		}
+	}
+	return nil
 }
